@@ -86,6 +86,12 @@ def check_limit_df(case, rec):
         df = df.iloc[::-1].reset_index(drop=True)
     df.index = make_index(case['index'], len(df))
     fs = case['fs']
+    if case.get('late'):
+        # cycles late in a long recording (beyond 2**24 / 2**31 samples: products with fs are no longer exact in single precision,
+        # nor within an absolute tolerance)
+        off = [2 ** 24 + 3, 30720000, 2 ** 31 + 12345, 10 ** 10][case['late'] % 4]
+        for col_ in sample_columns(df):
+            df[col_] = df[col_].astype('int64') + off
     center = ref.table_center(df)
     nm = ref.names(center)
     ks, ke = resolve_limit(case['start'], df, nm), resolve_limit(case['stop'], df, nm)
@@ -164,7 +170,7 @@ def check_limit_df(case, rec):
     on_boundary = (ks is not None and ks in set(last0.tolist())) or (ke is not None and ke in set(next0.tolist()))
     rec.label('table:' + case['table']['kind'], 'center:' + center, 'start:%s' % ('none' if ks is None else case['start'][0]),
               'stop:%s' % ('none' if ke is None else case['stop'][0]), 'reset:%s' % case['reset'], 'index:' + case['index'], 'rows:' + case.get('row_order', 'time'),
-              'on-cycle-boundary' if on_boundary else 'off-boundary', 'rows-out:%s' % ('0' if not len(out) else ('all' if len(out) == len(keep) else 'some')),
+              'late-samples' if case.get('late') else 'early-samples', 'on-cycle-boundary' if on_boundary else 'off-boundary', 'rows-out:%s' % ('0' if not len(out) else ('all' if len(out) == len(keep) else 'some')),
               'exact' if (exact_s and exact_e) else 'inexact-k/fs')
     rec.nontrivial(ks is None or ke is None or center == 'trough' or on_boundary)
 
@@ -178,12 +184,13 @@ def strat_limit_df(draw, tier):
         fs = c['fs']
     else:
         table = {'kind': 'synthetic', 'recipe': draw(gen_tables.st_table_recipe()), 'method': draw(st.sampled_from(['cycles', 'amp']))}
-        fs = draw(st.sampled_from(FS))
+        fs = draw(st.sampled_from(FS + [30000, 2048]))
     lim = st.one_of(st.none(), st.tuples(st.sampled_from(['side', 'side', 'inside', 'before', 'after']), st.integers(0, 10000)).map(list))
     return {'table': table, 'fs': fs, 'start': draw(lim), 'stop': draw(lim), 'reset': draw(st.booleans()),
             'pass_none': draw(st.booleans()),
             'index': draw(st.sampled_from(['range', 'range', 'offset', 'repeated', 'repeated', 'reversed'])),
-            'row_order': draw(st.sampled_from(['time', 'time', 'time', 'by-feature', 'reversed']))}
+            'row_order': draw(st.sampled_from(['time', 'time', 'time', 'by-feature', 'reversed'])),
+            'late': draw(st.one_of(st.just(0), st.just(0), st.just(0), st.integers(1, 8)))}
 
 
 # ------------------------------------------------------------------------------------------------ limit_signal
@@ -192,8 +199,19 @@ def check_limit_signal(case, rec):
     n, fs = case['n'], case['fs']
     if case['times'] == 'regular':
         times = np.arange(n) / fs
-    else:
+    elif case['times'] == 'irregular':
         times = np.cumsum(np.array(case['steps'][:n], dtype=float) / fs)
+    elif case['times'] == 'trial-relative':
+        # trials stored back to back with a trial-relative time axis: the statement is about the samples with start <= t < stop,
+        # wherever they sit in the array
+        m = max(2, n // (2 + case['steps'][0] % 3))
+        times = (np.arange(n) % m) / fs
+    elif case['times'] == 'clock-reset':
+        k0 = 1 + case['steps'][1] % max(1, n - 1)
+        times = np.concatenate([np.arange(k0), np.arange(n - k0)]) / fs
+    else:                                   # samples stored out of time order
+        order = np.argsort(np.array(case['steps'][:n]) * 1000 + np.arange(n), kind='stable')
+        times = (np.arange(n) / fs)[order]
     sig = np.arange(n, dtype=float) * 0.5 - 3
     def lim(spec):
         if spec is None:
@@ -244,7 +262,7 @@ def check_limit_signal(case, rec):
 def strat_limit_signal(draw, tier):
     n = draw(st.integers(2, 120))
     lim = st.one_of(st.none(), st.tuples(st.sampled_from(['on', 'on', 'between', 'zero', 'after']), st.integers(0, 1000)).map(list))
-    return {'n': n, 'fs': draw(st.sampled_from(FS)), 'times': draw(st.sampled_from(['regular', 'regular', 'irregular'])),
+    return {'n': n, 'fs': draw(st.sampled_from(FS)), 'times': draw(st.sampled_from(['regular', 'regular', 'irregular', 'trial-relative', 'clock-reset', 'permuted'])),
             'steps': draw(st.lists(st.integers(1, 5), min_size=120, max_size=120)), 'start': draw(lim), 'stop': draw(lim),
             'pass_none': draw(st.booleans())}
 
